@@ -163,6 +163,7 @@ type Obligation struct {
 	Output  string
 	SMTFile string
 	Vacuity bool // expected NOT provable (cover)
+	CaseTerms []string // reference-valued entry terms (parameters and their pointer fields) for case splits
 }
 
 type Exec struct {
@@ -191,6 +192,7 @@ type Exec struct {
 	allowHeapClosure bool
 	anchorResults []Val
 	anchorArgs    []Val
+	lastWitness   map[string]Val // ghost witnesses of the contract call just made (for after-call anchors)
 	inGoal    int
 	goalIx    []string
 	topTargets []modTarget
@@ -233,7 +235,37 @@ func (ex *Exec) oblige(st *State, kind string, props []string, goal, desc string
 		ex.goalIx = nil
 	}
 	o := &Obligation{Name: name, Kind: kind, Func: ex.top.FullName(), Props: props, Assumes: as, Goal: goal, Desc: desc, Pos: ex.posString(pos)}
+	o.CaseTerms = ex.caseTerms()
 	ex.obls = append(ex.obls, o)
+}
+
+// caseTerms: the reference-valued parameters of the function under verification and their
+// reference-valued fields in the entry heap; a goal about "every object x" that the solvers cannot
+// decide is retried once per case x == term (and once with x different from all of them).
+func (ex *Exec) caseTerms() []string {
+	var ps []string
+	for _, k := range sortedKeys(ex.topEnvBind) {
+		if v := ex.topEnvBind[k]; v.S != nil && v.S.Kind == KRef {
+			ps = append(ps, v.T)
+		}
+	}
+	out := append([]string{}, ps...)
+	if ex.entry != nil {
+		for _, key := range sortedKeys(ex.entry.heap) {
+			if !strings.HasPrefix(key, "f:") {
+				continue
+			}
+			if s := ex.heapS[key]; s == nil || s.Elem == nil || s.Elem.Kind != KRef {
+				continue
+			}
+			for _, p := range ps {
+				if len(out) < 10 {
+					out = append(out, sSel(ex.entry.heap[key], p))
+				}
+			}
+		}
+	}
+	return out
 }
 
 // heap access helpers
